@@ -24,11 +24,11 @@ const (
 )
 
 // MaxRunTime bounds the wall-clock time of one run.
-const MaxRunTime = 10 * time.Second
+const MaxRunTime = 120 * time.Second
 
 // DriverBudget bounds the wall-clock time of one Check* call: functions
 // reached after it has elapsed are reported as undecided (budget exceeded).
-const DriverBudget = 40 * time.Second
+const DriverBudget = 8 * time.Minute
 
 const smallMax = 1024
 
